@@ -22,6 +22,6 @@ CHECK = {'level': 'exploration',
                  'stalled-peer class: "reply not delivered in time" is measured in heartbeats of a goroutine of the test process (>= 20 beats between the handler\'s '
                  'answer and the requester\'s timer), skipped for calls during which a beat was late (> 50 ms), and counts only when the same scenario shows it 3 of 3 '
                  'times; otherwise inconclusive'],
- 'quick': [{'pkg': 'c17', 'checks': 60, 'timeout': 1800, 'shrinktime': '6s'}],
- 'thorough': [{'pkg': 'c17', 'checks': 800, 'shards': 12, 'timeout': 2400, 'gomaxprocs': 4, 'shrinktime': '6s'},
-              {'pkg': 'c17', 'race': True, 'checks': 200, 'shards': 4, 'timeout': 2400, 'gomaxprocs': 4, 'shrinktime': '6s'}]}
+ 'quick': [{'pkg': 'c17', 'checks': 60, 'timeout': 1800, 'shrinktime': '6s', 'env': {'VERIF_C17_STORM': 40}}],
+ 'thorough': [{'pkg': 'c17', 'checks': 800, 'shards': 12, 'timeout': 2400, 'gomaxprocs': 4, 'shrinktime': '6s', 'env': {'VERIF_C17_STORM': 200}},
+              {'pkg': 'c17', 'race': True, 'checks': 200, 'shards': 4, 'timeout': 2400, 'gomaxprocs': 4, 'shrinktime': '6s', 'env': {'VERIF_C17_STORM': 60}}]}
